@@ -133,6 +133,16 @@ class EntryView:
             if isinstance(val, CListView) and val.v.eq(self.v) and \
                     val.which == idx:
                 return
+            if isinstance(val, Ref) and st.heap[val.oid].kind == 'list' and \
+                    isinstance(st.heap[val.oid].f.get('items'), list) and \
+                    all(isinstance(c, AbsCon) for c in st.heap[val.oid].f[
+                        'items']):
+                # plain assignment of a new list: the old record is replaced
+                cn = 'icnt' if idx == 'i' else 'ecnt'
+                o.f[cn] = z3.Store(o.f[cn], self.v, z3.K(C, z3.IntVal(0)))
+                for c in st.heap[val.oid].f['items']:
+                    list_add(st, self.ref, self.v, idx, c.t, 1)
+                return
         raise Unsupported('store to _variables[v][%r]' % (idx,))
 
 
@@ -408,6 +418,8 @@ def clist_inplace(ex, st, op, cur, v, s):
                 raise Unsupported('appending a non-constraint')
             o.f['cnt'] = z3.Store(o.f['cnt'], c.t, z3.Select(
                 o.f['cnt'], c.t) + 1)
+            if 'items' in o.f:
+                o.f['items'] = list(o.f['items']) + [c]
         return cur
     raise Unsupported('in-place %s on a constraint list' % op)
 
@@ -434,6 +446,17 @@ def clist_truth(ex, st, ref):
     return z3.Exists([c], z3.Select(st.heap[ref.oid].f['cnt'], c) > 0)
 
 
+_prev_iter_values = L.iter_values
+
+
+def iter_values2(ex, st, it, s):
+    if isinstance(it, Ref) and st.heap[it.oid].kind == 'abs_clist' and \
+            'items' in st.heap[it.oid].f:
+        return list(st.heap[it.oid].f['items'])
+    return _prev_iter_values(ex, st, it, s)
+
+
+L.iter_values = iter_values2
 L.hooks['truth_kind:abs_clist'] = clist_truth
 L.hooks['method_kind:abs_clist'] = clist_method
 L.hooks['inplace_kind:abs_clist'] = clist_inplace
@@ -456,6 +479,24 @@ def m_isscalar(ex, st, args, kwargs, n):
 def obj_setattr(ex, st, args, kwargs, n):
     self, name, value = args
     o = st.heap[self.oid]
+    if name in ('_inequalities', '_equalities') and isinstance(value, Ref) \
+            and st.heap[value.oid].kind == 'list' and st.heap[
+                value.oid].f.get('items') == []:
+        # a fresh empty list becomes the abstract (multiset) list; the
+        # sequence of items appended to it is remembered so that a loop over
+        # it can be unrolled (constructor scenarios)
+        value = ex.alloc(st, 'abs_clist', {'cnt': z3.K(C, z3.IntVal(0)),
+                                          'items': []},
+                         {'owner': 'FRESH', 'name': name})
+    if name == '_variables' and isinstance(value, Ref) and st.heap[
+            value.oid].kind == 'dict' and not st.heap[value.oid].f.get(
+                'items') and not st.heap[value.oid].f.get('open'):
+        value = ex.alloc(st, 'abs_vars', {
+            'dom': z3.K(V, z3.BoolVal(False)),
+            'o': z3.K(V, z3.BoolVal(False)),
+            'icnt': z3.K(V, z3.K(C, z3.IntVal(0))),
+            'ecnt': z3.K(V, z3.K(C, z3.IntVal(0)))},
+            {'owner': 'FRESH', 'name': '_variables'})
     o.f['attrs'] = dict(o.f['attrs'])
     o.f['attrs'][name] = value
     return None
@@ -796,7 +837,87 @@ def accessor_outcomes(method):
     return on_outcomes
 
 
+def init_setup(sc):
+    """op(objective, constraints): BOUNDED scenarios -- constraints is None,
+    one constraint, or a list of 0, 1, 2 or 3 symbolic constraints (equal or
+    different, of either type); the objective is an arbitrary function"""
+    def setup(ex, st, fid, fn):
+        self = ex.alloc(st, 'instance', {'cls': 'op', 'attrs': {}},
+                        {'owner': 'FRESH'})
+        fr = st.frames[fid]
+        fr['self'] = self
+        fr['objective'] = ex.alloc(st, 'abs_func', {'vars': z3.Const(
+            'newobj', z3.ArraySort(V, z3.BoolSort()))},
+            {'owner': 'INPUT:objective', 'name': 'objective'})
+        k = sc['n']
+        cons = [AbsCon(z3.Const('c%d' % i, C)) for i in range(max(k, 0))]
+        if k < 0:
+            fr['constraints'] = None
+        elif sc.get('single'):
+            fr['constraints'] = cons[0]
+        else:
+            fr['constraints'] = ex.alloc(st, 'list', {'items': cons},
+                                         {'owner': 'INPUT:constraints',
+                                          'name': 'constraints'})
+        fr['name'] = ''
+        st.ghost['op_self'] = self
+        st.ghost['init_cons'] = [c.t for c in cons]
+    return setup
+
+
+def init_outcomes(ex, outs):
+    summ = {'returns': 0}
+    for o in outs:
+        st = o.st
+        if o.kind == 'raise':
+            ex.oblige(st, 'exception-type', False, None,
+                      'op(objective, constraints) does not raise for a '
+                      'function and constraints (%s at line %s)' % (
+                          o.val[0], o.val[2]), extra={'prop': 'C13'})
+            continue
+        summ['returns'] += 1
+        self = st.ghost['op_self']
+        a = st.heap[self.oid].f['attrs']
+        ok = all(k in a for k in ('_variables', '_inequalities',
+                                  '_equalities', 'objective')) and all(
+            isinstance(a[k], Ref) and st.heap[a[k].oid].kind == kind
+            for k, kind in (('_variables', 'abs_vars'),
+                            ('_inequalities', 'abs_clist'),
+                            ('_equalities', 'abs_clist'),
+                            ('objective', 'abs_func')))
+        if not ok:
+            ex.oblige(st, 'invariant-established', False, None,
+                      'the constructor sets _variables, _inequalities, '
+                      '_equalities and objective', extra={'prop': 'C13'})
+            continue
+        for text, g in inv_named(st, self):
+            ex.oblige(st, 'invariant-established', g, None,
+                      'after op(...): %s' % text, extra={'prop': 'C13'})
+        cs = st.ghost.get('init_cons', [])
+        c2 = z3.Const('c2!', C)
+        Ic = st.heap[a['_inequalities'].oid].f['cnt']
+        Ec = st.heap[a['_equalities'].oid].f['cnt']
+        occ = sum([z3.If(c2 == c_, 1, 0) for c_ in cs]) if cs else \
+            z3.IntVal(0)
+        ex.oblige(st, 'edit-effect', z3.And(
+            z3.ForAll([c2], z3.Select(Ic, c2) == z3.If(isineq(c2), occ, 0)),
+            z3.ForAll([c2], z3.Select(Ec, c2) == z3.If(isineq(c2), 0, occ)),
+            st.heap[a['objective'].oid].f['vars'] == z3.Const(
+                'newobj', z3.ArraySort(V, z3.BoolSort()))), None,
+            'the constructor records exactly the given objective and each '
+            'given constraint, once per occurrence, in the list of its type',
+            extra={'prop': 'C13'})
+    return summ
+
+
 FUNCS = {
+    'op.__init__': {'setup': init_setup,
+                    'scenarios': {'none': {'n': -1},
+                                  'single': {'n': 1, 'single': True},
+                                  'list0': {'n': 0}, 'list1': {'n': 1},
+                                  'list2': {'n': 2}, 'list3': {'n': 3}},
+                    'on_outcomes': init_outcomes,
+                    'config': {'unroll': 8}},
     'op.addconstraint': {'setup': setup_for('addconstraint'),
                          'scenarios': {'constraint': {'arg': 'constraint'},
                                        'other': {'arg': 'other'}},
